@@ -62,7 +62,7 @@ Definition cfg_of_bits (b : Z) : cfg :=
 Record layer_case := mkLC {
   lc_cfg : Z; lc_docpm : Z (* -1: no document *); lc_cm : Z;
   lc_mode : Z; lc_w : Z; lc_h : Z; lc_seed : Z; lc_step : Z; lc_astyle : Z;
-  lc_top : Z; lc_left : Z; lc_tab : list (Z * list plane) }.
+  lc_top : Z; lc_left : Z; lc_export : bool; lc_tab : list (Z * list plane) }.
 
 Definition layer_digests (k : layer_case) : list Z :=
   let img := gen_raster (mode_of_code (lc_mode k)) (lc_w k) (lc_h k) (lc_seed k) (lc_step k) (lc_astyle k) in
@@ -70,8 +70,10 @@ Definition layer_digests (k : layer_case) : list Z :=
   let cm := cmode_of_code (lc_cm k) in
   let l := layer_frompil (conv_tab (lc_tab k)) (cfg_of_bits (lc_cfg k)) pm img (lc_top k) (lc_left k) in
   [ dg (canon_layer l);
-    dg (canon_res (fun o => match o with None => [0] | Some r => 1 :: canon_raster r end) (layer_topil cm l));
-    dg (canon_planes (layer_numpy cm l)) ].
+    if lc_export k then
+      dg (canon_res (fun o => match o with None => [0] | Some r => 1 :: canon_raster r end) (layer_topil cm l))
+    else 0;
+    if lc_export k then dg (canon_planes (layer_numpy cm l)) else 0 ].
 
 (* ------------------------------------------------------------------ stream "doc" (C07) *)
 Record doc_case := mkDC {
@@ -112,3 +114,9 @@ Definition container_digest (a : (Z * Z * Z * Z * Z) * list plane) : list Z :=
   let '((cmp, channels, w, h, d), planes) := a in
   let hd := mkH CRgb channels w h d in
   canon_res canon_planes (do st <- set_data (comp_of_code cmp) hd planes; get_data st hd).
+
+(* ------------------------------------------------------------------ the white-matte formulas, all 65536 pairs *)
+Definition matte_table_digest : Z :=
+  dg (flat_map (fun x => map (fun a => matte_px x a) (zseq 256)) (zseq 256)).
+Definition unmatte_table_digest : Z :=
+  dg (flat_map (fun x => map (fun a => unmatte_px x a) (zseq 256)) (zseq 256)).
